@@ -104,6 +104,12 @@ func (s *verifStorageFull) GetDeviceAuthorizatonState(ctx context.Context, clien
 		return nil, err
 	}
 	s.devLookups = append(s.devLookups, verifDevLookup{clientID, deviceCode})
+	switch s.devErr {
+	case 1:
+		return nil, context.DeadlineExceeded
+	case 2:
+		return nil, errVerifStorage
+	}
 	if s.devState != nil && clientID == s.devClient && deviceCode == s.devCode {
 		return s.devState, nil
 	}
